@@ -104,6 +104,8 @@ class SymArray(np.ndarray):
             return self.view(np.ndarray) if not copy else self.view(np.ndarray).copy()
         if new.kind not in 'fciub':
             raise EngineGap('astype(%s) of symbolic data' % new)
+        if casting != 'unsafe' and not np.can_cast(old, new, casting):
+            raise TypeError('Cannot cast array data from %r to %r according to the rule %r' % (old, new, casting))
         r = np.ndarray.copy(self, order=order if order in 'CFAK' else 'K')
         if new.kind == 'c' and old.kind != 'c':
             rr = r.view(np.ndarray)
@@ -114,7 +116,15 @@ class SymArray(np.ndarray):
             for idx in np.ndindex(r.shape):
                 rr[idx] = SC.coerce(rr[idx]).re
         elif new.kind in 'iu' and old.kind == 'f':
-            raise EngineGap('float -> int truncation of symbolic data')
+            rr = r.view(np.ndarray)
+            for idx in np.ndindex(r.shape):
+                v = rr[idx]
+                if isinstance(v, SV):
+                    rr[idx] = v.trunc()
+                elif isinstance(v, (SC, SD)):
+                    raise EngineGap('float -> int truncation of symbolic data')
+                else:
+                    rr[idx] = int(v)
         elif new.kind == 'b':
             raise EngineGap('symbolic -> bool cast')
         r._fake = FakeDtype(new)
